@@ -393,3 +393,12 @@ example : (symBlock (-3 : ℚ) (-2) - (-5 : ℚ) • (1 : Matrix (Fin 2) (Fin 2)
   · norm_num [abs_of_nonpos, max_def]
 
 end SymBlock
+
+
+/-- … so over a domain the eigenvalues (roots of the characteristic polynomial) of a block-diagonal matrix are those of
+    its blocks: the spectral radius of the structured family is the largest modulus found in any block, which is what
+    the harness takes (diagonal entries, rotation-block scales, a ± b of the symmetric blocks) -/
+theorem C19_block_diag_roots {K : Type} [CommRing K] [IsDomain K] {m n : Type} [Fintype m] [Fintype n]
+    [DecidableEq m] [DecidableEq n] (A : Matrix m m K) (D : Matrix n n K) (μ : K) :
+    (Matrix.fromBlocks A 0 0 D).charpoly.IsRoot μ ↔ A.charpoly.IsRoot μ ∨ D.charpoly.IsRoot μ := by
+  rw [C19_block_diag_charpoly, Polynomial.root_mul]
